@@ -915,6 +915,11 @@ var c09People = []string{"@I1@", "@I2@", "@I3@", "@I4@", "@I9@"}
 func c09role(g *c07gen) *TNode {
 	t := T(g.r.Pick([]string{"HUSB", "WIFE", "CHIL", "CHIL"}), g.r.Pick(c09People), "")
 	if g.r.Chance(1, 4) {
+		// a role line with a cross-reference identifier of its own (`1 @H1@ HUSB @I1@`): the
+		// decoder accepts one on any line and Equals compares it
+		t.Ptr = g.r.Pick([]string{"H1", "C1", "C2"})
+	}
+	if g.r.Chance(1, 4) {
 		t.Kids = append(t.Kids, T("NOTE", g.r.Pick([]string{"a", "b"}), ""))
 	}
 	return t
@@ -959,6 +964,7 @@ func init() {
 		c09nodesCase(c, T("X", "", ""), T("X", "", "", T("NOTE", "a", "", T("A", "1", "")), T("NOTE", "a", "", T("B", "2", ""))), "pinned")
 		// pinned: an unmatched HUSB of the right family (needs the family it is added to)
 		c09nodesCase(c, T("FAM", "", "F1"), T("FAM", "", "F1", T("HUSB", "@I1@", "")), "pinned-family")
+		c09nodesCase(c, T("FAM", "", "F1", T("WIFE", "@I2@", "")), T("FAM", "", "F1", T("HUSB", "@I1@", "H1"), T("CHIL", "@I3@", "C1", T("NOTE", "a", ""))), "pinned-family")
 		c09nodesCase(c, T("FAM", "", "F1", T("WIFE", "@I2@", ""), T("CHIL", "@I3@", "")),
 			T("FAM", "", "F1", T("HUSB", "@I1@", "", T("NOTE", "a", "")), T("CHIL", "@I3@", ""), T("CHIL", "@I4@", "")), "pinned-family")
 		// pinned: RESI whose DATE children are replaced by a merge and then compared again (the
